@@ -10,6 +10,12 @@ def fixed_table():
         w = f["what"].split(" ", 3)[3].replace("|", "/")
         L.append("| %s | %s | %s |" % (f["property"], f["commit"], w))
     L.append("")
+    if k["findings"]:
+        L.append("Open findings (genuine defects recorded, not repaired; the check prints `KNOWN-FINDING` and exits 0):")
+        L.append("")
+        for f in k["findings"]:
+            L.append("* **%s** - %s  (match: `%s`)" % (f["property"], f["what"], json.dumps(f["match"])))
+        L.append("")
     L.append("%d defects repaired, each by one unguarded `fix:` commit; none is recorded as an open finding "
              "(`known_findings.json` has an empty `findings` list)." % len(k["fixed"]) if not k["findings"] else
              "%d defects repaired; %d open findings." % (len(k["fixed"]), len(k["findings"])))
